@@ -381,7 +381,7 @@ func (p *eparser) mul() *CExpr {
 	}
 }
 func (p *eparser) unary() *CExpr {
-	for _, op := range []string{"!", "-", "^"} {
+	for _, op := range []string{"!", "-", "^", "*"} {
 		if p.accept(op) {
 			return &CExpr{Kind: "un", Op: op, X: p.unary()}
 		}
@@ -471,13 +471,15 @@ func (p *eparser) primary() *CExpr {
 // ---------------- contract blocks ----------------
 
 type Clause struct {
-	Kind  string // requires ensures invariant decreases unroll assigns use unfold assume modifies
-	Loop  int    // for loop clauses (1-based ordinal), 0 otherwise
-	Props []string
-	Text  string
-	Expr  *CExpr
-	Args  []*CExpr // for use/unfold/assigns lists
-	Line  string
+	Kind          string // requires ensures invariant decreases unroll assigns use unfold assume modifies
+	Loop          int    // for loop clauses (1-based ordinal), 0 otherwise
+	Props         []string
+	Text          string
+	Expr          *CExpr
+	Args          []*CExpr // for use/unfold/assigns lists
+	Line          string
+	Where, Marker string // assert before|after "statement text"
+	hit           bool
 }
 
 type FuncContract struct {
@@ -568,7 +570,7 @@ var clauseKeywords = map[string]bool{
 	"pure": true, "trusted": true, "inline": true, "use": true, "unfold": true, "wrap": true,
 	"func": true, "spec": true, "axiom": true, "lemma": true, "assume": true, "lit": true, "panics": true,
 	"induction": true, "fresh": true, "havoc": true, "ghost": true, "pred": true, "noframe": true,
-	"reads": true, "cases": true, "ghostvar": true, "ghostfield": true, "nooverflow": true, "unrollall": true, "pathcap": true, "opaque": true, "mayalias": true,
+	"reads": true, "assert": true, "cases": true, "ghostvar": true, "ghostfield": true, "nooverflow": true, "unrollall": true, "pathcap": true, "opaque": true, "mayalias": true,
 }
 
 // parseContractText parses the `//@`-prefixed lines (prefix="//@") of a Go file
@@ -746,6 +748,38 @@ func parseContractText(path, text, prefix string) (*ContractFile, error) {
 					cl.Text = strings.TrimSpace(cl.Text[j+1:])
 				}
 			}
+		}
+		if cl.Kind == "assert" {
+			// assert before|after "statement text prefix" <expr>
+			fs := strings.SplitN(cl.Text, " ", 2)
+			if len(fs) != 2 || (fs[0] != "before" && fs[0] != "after") {
+				return fail(fmt.Errorf("assert before|after \"stmt\" expr"))
+			}
+			rest := strings.TrimSpace(fs[1])
+			if !strings.HasPrefix(rest, "\"") {
+				return fail(fmt.Errorf("assert: quoted statement text expected"))
+			}
+			j := 1
+			for j < len(rest) && rest[j] != '"' {
+				if rest[j] == '\\' {
+					j++
+				}
+				j++
+			}
+			if j >= len(rest) {
+				return fail(fmt.Errorf("assert: unterminated statement text"))
+			}
+			marker, err := strconv.Unquote(rest[:j+1])
+			if err != nil {
+				return fail(err)
+			}
+			e, err := ParseCExpr(rest[j+1:])
+			if err != nil {
+				return fail(err)
+			}
+			cl.Where, cl.Marker, cl.Expr = fs[0], marker, e
+			cur.Clauses = append(cur.Clauses, cl)
+			continue
 		}
 		switch cl.Kind {
 		case "requires", "ensures", "invariant", "decreases", "assume":
